@@ -122,7 +122,7 @@ fn uw(items: &[Sexp], o: &mut Oracle) -> Option<String> {
             b.put_bytes(0xAA, GUARD);
             if b.capacity() - b.len() != spare { return Some("alloc-mismatch".into()); }
             unsafe {
-                let base = b.as_mut_ptr().add(GUARD);
+                let base = b.spare_capacity_mut().as_mut_ptr() as *mut u8;   // provenance over the spare capacity
                 std::ptr::write_bytes(base, 0xAA, spare);
                 let window: &'static mut [u8] = std::slice::from_raw_parts_mut(base, win);
                 let mut p = TBinaryUnsafeOutputProtocol::new(&mut b, window, false);
@@ -151,7 +151,7 @@ fn uw(items: &[Sexp], o: &mut Oracle) -> Option<String> {
             if lb.bytes_mut().capacity() - lb.bytes_mut().len() != spare { return Some("alloc-mismatch".into()); }
             let mut ns: Vec<usize>;
             unsafe {
-                let base = lb.bytes_mut().as_mut_ptr().add(GUARD);
+                let base = lb.bytes_mut().spare_capacity_mut().as_mut_ptr() as *mut u8;
                 std::ptr::write_bytes(base, 0xAA, spare);
                 let window: &'static mut [u8] = std::slice::from_raw_parts_mut(base, win);
                 let mut p = TBinaryUnsafeOutputProtocol::new(&mut lb, window, zc);
@@ -171,7 +171,8 @@ fn uw(items: &[Sexp], o: &mut Oracle) -> Option<String> {
                 let l = lb.bytes_mut().len();
                 let rem = lb.bytes_mut().capacity() - l;
                 if idx > rem { o.fail("C11", format!("index {} beyond the spare capacity {}", idx, rem)); return Some(format!("overrun idx={}", idx)); }
-                let tail = std::slice::from_raw_parts(lb.bytes_mut().as_ptr().add(l + idx), rem - idx);
+                let _ = l;
+                let tail = std::slice::from_raw_parts((lb.bytes_mut().spare_capacity_mut().as_ptr() as *const u8).add(idx), rem - idx);
                 if tail.iter().any(|x| *x != 0xAA) { notes.push("wrote at or beyond the final index (guard bytes changed)".into()); }
                 lb.bytes_mut().advance_mut(idx);
             }
